@@ -1,5 +1,5 @@
 #![allow(dead_code)]
-mod vocab; mod tree; mod val; mod call; mod render; mod refsem; mod expect; mod engine; mod meta; mod agg;
+mod vocab; mod tree; mod val; mod call; mod render; mod refsem; mod expect; mod engine; mod meta; mod agg; mod loops;
 
 use engine::*;
 use serde_json::{json, Value};
@@ -191,6 +191,13 @@ fn main() {
             "replay" => run_replay(&job),
             "selftest" => run_selftest(&job),
             "agg" => run_agg(&job),
+            "loops" => {
+                let v = vocab::Vocab::load(job["vocab"].as_str().unwrap());
+                let mut out = open_out(&job, profile_name());
+                loops::run(&mut out, &v, job["e"].as_str().unwrap(), job["shard"].as_u64().unwrap_or(0), job["nshards"].as_u64().unwrap_or(1), job["start"].as_u64().unwrap_or(0));
+                out.heartbeat(u64::MAX);
+                write_stats(&job, &mut out, true);
+            }
             m => { eprintln!("unknown mode {}", m); std::process::exit(2); }
         }
     } else if args.len() >= 4 && args[1] == "one" {
